@@ -296,6 +296,9 @@ func injectShape() *oci.Spec {
 	if s.Process == nil {
 		s.Process = &oci.Process{}
 	}
+	// strings a line-oriented printer mangles: empty lines inside, trailing line breaks, leading blanks
+	s.Process.Env = append(s.Process.Env, "SCRIPT=echo a\n\necho b\n", "TRAILING=x\n\n", "  INDENTED=  y  ")
+	s.Process.Args = append(s.Process.Args, "sh", "-c", "first line\n\n\nfourth line")
 	s.Process.User.UID = 4000000000
 	s.Process.User.AdditionalGids = append(s.Process.User.AdditionalGids, 1000000, u32max)
 	return s
